@@ -192,15 +192,18 @@ static struct log_destination_vtable lr_vt;
 
 static struct log_destination *lr_open(const char *args)
 {
-    struct set_node *n = calloc(1, sizeof(struct set_node) + sizeof(struct log_destination));
-    (void)args; V_ASSUME(n != NULL); lr_opened++;
-    return set_node_data(n);
+    /* a typed allocation (not calloc(1, a + b), which the verifier represents as a byte array:
+     * pointers stored in it would come back byte by byte and nothing after would be concrete) */
+    struct lr_dnode { struct set_node n; struct log_destination d; } *n = malloc(sizeof(struct lr_dnode));
+    static const struct lr_dnode zero;
+    (void)args; V_ASSUME(n != NULL); *n = zero; lr_opened++;
+    return &n->d;
 }
 static void lr_close(struct log_destination *self) { if (lr_n_closed < 4) lr_closed[lr_n_closed] = self; lr_n_closed++; }
 static struct log_destination *lr_mkdest(const char *name, int refcnt)
 {
     struct log_destination *d = lr_open(NULL); size_t n = strlen(name) + 1;
-    d->name = malloc(n); V_ASSUME(d->name != NULL); memcpy(d->name, name, n);
+    size_t i; d->name = malloc(n); V_ASSUME(d->name != NULL); for (i = 0; i < 8 && i < n; i++) d->name[i] = name[i];
     d->vtbl = &lr_vt; d->refcnt = refcnt;
     return d;
 }
